@@ -8,7 +8,7 @@ from .setops import premise_group, constructor_group, bits_for, fnr, decode_ab, 
 from ..validate import validation_group
 BOUNDS = {
     'quick': {'alternatives_per_operand': '1..2', 'hybrid_groups': 'identifiers abstract (any length), fields major/minor/patch full u64 <= MAX_SAFE_INTEGER for operand products < 4 alternatives, < 8 for larger products', 'identifier_list_len': 1, 'versions': 'rank mode: any total preorder on the bound/probe versions; concrete mode: u64 components <= MAX_SAFE_INTEGER'},
-    'thorough': {'alternatives_per_operand': '1..3', 'identifier_list_len': 2, 'versions': 'same'},
+    'thorough': {'alternatives_per_operand': '1..3 each, plus 4x1 1x4 4x2 2x4 5x1 1x5', 'identifier_list_len': 2, 'versions': 'same'},
 }
 OUTSIDE = ['ranges with more alternatives than the bound', 'identifier lists longer than the bound', 'contents of alphanumeric identifiers (abstract ordered tokens)',
            'text -> range (parser) and range -> text (Display): operands are arbitrary values accepted by BoundSet::new']
@@ -22,6 +22,9 @@ def groups(tier):
     gs = []
     for ka in range(1, K + 1):
         for kb in range(1, K + 1):
+            gs.append({'name': 'rank-%dx%d' % (ka, kb), 'fn': rank_group, 'rank_fallback': True, 'args': {'ka': ka, 'kb': kb}})
+    if tier != 'quick':
+        for ka, kb in ((4, 1), (1, 4), (4, 2), (2, 4), (5, 1), (1, 5)):
             gs.append({'name': 'rank-%dx%d' % (ka, kb), 'fn': rank_group, 'rank_fallback': True, 'args': {'ka': ka, 'kb': kb}})
     for ka in range(1, K + 1):
         for kb in range(1, K + 1):
